@@ -1523,14 +1523,42 @@ def mask_ok(space, m, a) -> bool:
     return all(m[j] or a[j] == 0 for j in range(len(m)))
 
 
-def sweep_one(cfg):
-    """run the real agent of one configuration; returns (problems, tags)"""
+def greedy_problems(agent, algo, obs, out, mask, B, single, what):
+    """the chosen index has the largest value among the allowed ones according to the agent's own network"""
+    probs = []
+    actor = agent.actor
+    was = actor.training
+    try:
+        if algo != "DQN":
+            actor.eval()
+        with torch.no_grad():
+            q = actor(agent.preprocess_observation(obs)).detach().cpu().numpy()
+    finally:
+        actor.train(was)
+    out = np.asarray(out)
+    if q.shape[0] != B or out.shape != (B,):
+        return probs
+    for b in range(B):
+        m = np.ones(q.shape[1], bool) if mask is None else np.asarray(mask if single else mask[b]).astype(bool)
+        if not m.any() or not 0 <= int(out[b]) < q.shape[1] or not m[int(out[b])]:
+            continue
+        best = q[b][m].max()
+        if q[b][int(out[b])] < best - 1e-6 * max(1.0, abs(float(best))):
+            probs.append(f"{what} row {b}: greedy action {int(out[b])} has value {float(q[b][int(out[b])]):.6g} < best allowed "
+                         f"{float(best):.6g} (mask {m.astype(int).tolist()})")
+    return probs
+
+
+def sweep_one(cfg, agent=None):
+    """run the real agent of one configuration (or the given, e.g. mutated, agent); returns (problems, tags)"""
     from gymnasium import spaces
     ag = _agents()
     algo, fam, kind, seed = cfg["algo"], cfg["family"], cfg["kind"], cfg["seed"]
     rng = random.Random(seed)
     key = ("sweep", algo, fam, kind, cfg.get("space_seed", 0))
-    if cfg.get("custom"):
+    if agent is not None:
+        pass
+    elif cfg.get("custom"):
         # user-supplied plain-MLP actor(s): the output (Tanh / unbounded) is not rescaled onto the Box
         bi, bj = cfg["custom"]["bounds"]
         agent = custom_agent(algo, bi, cfg["custom"]["act"], bj)
@@ -1575,10 +1603,14 @@ def sweep_one(cfg):
         out = agent.get_action(obs, epsilon=eps, action_mask=m)
         tags.append(f"eps-{eps}")
         check_rows(agent.action_space, out, f"{algo} eps={eps} obs={fam}", m)
+        if eps == 0 and cfg.get("greedy"):
+            problems.extend(greedy_problems(agent, algo, obs, out, m, B, single, f"{algo} eps=0 obs={fam}"))
     elif algo == "RainbowDQN":
         m = rand_mask(agent.action_space, rng, B, single) if cfg["mask"] else None
         out = agent.get_action(obs, action_mask=m, training=train)
         check_rows(agent.action_space, out, f"{algo} training={train} obs={fam}", m)
+        if not train and cfg.get("greedy"):
+            problems.extend(greedy_problems(agent, algo, obs, out, m, B, single, f"{algo} training=False obs={fam}"))
     elif algo in ("DDPG", "TD3"):
         out = agent.get_action(obs, training=train)
         tags.append("noise-on" if train else "noise-off")
@@ -1657,6 +1689,164 @@ def sweep_one(cfg):
                 if o.shape[:1] == (B,) and got.shape == v.shape and not np.all(np.isnan(v) | (got == v.astype(np.float32))):
                     problems.append(f"{algo} {aid} env {b}: env-defined action {v.tolist()} not returned (got {got.tolist()})")
     return problems, tags
+
+
+# ============================================================================= history dimension
+#: chain operations: what a population member goes through between two calls of get_action
+HIST_OPS = ["clone", "arch", "arch:latent+", "arch:latent-", "arch:encoder", "arch:head", "param", "act", "rlhp", "ckpt"]
+
+
+def hist_agent(cfg):
+    """a fresh (never cached: the chain changes it) real agent of the configuration"""
+    ag = _agents()
+    algo, fam, kind = cfg["algo"], cfg["family"], cfg["kind"]
+    nc = ag.default_net_config(algo, fam)
+    if cfg.get("squash"):
+        nc["squash_output"] = True
+    return mk_agent(algo, fam, sweep_spaces(algo, kind, random.Random(cfg.get("space_seed", 0))), seed=cfg.get("space_seed", 0),
+                    net_config=nc, hp_config=ag.default_hp_config(algo))
+
+
+def _mutations(kind: str, seed: int):
+    from agilerl.hpo.mutation import Mutations
+    p = {"none": 0, "arch": 0, "param": 0, "act": 0, "rl_hp": 0}
+    p[kind] = 1
+    return Mutations(no_mutation=p["none"], architecture=p["arch"], new_layer_prob=0.5, parameters=p["param"],
+                     activation=p["act"], rl_hp=p["rl_hp"], mutation_sd=0.1, rand_seed=seed, device="cpu")
+
+
+def apply_op(agent, op: str, seed: int):
+    """one step of a history, through the public API the training loops / HPO use; returns (agent, what happened)"""
+    import tempfile
+    import agilerl.hpo.mutation as mut_mod
+    if op == "clone":
+        return agent.clone(), "clone"
+    if op == "ckpt":
+        with tempfile.TemporaryDirectory(prefix="c14ck") as d:
+            path = f"{d}/agent.pt"
+            agent.save_checkpoint(path)
+            return type(agent).load(path, device="cpu"), "ckpt"
+    if op in ("param", "act", "rlhp"):
+        m = _mutations({"param": "param", "act": "act", "rlhp": "rl_hp"}[op], seed)
+        out = m.mutation([agent])[0]
+        return out, f"{op}:{getattr(out, 'mut', None)}"
+    m = _mutations("arch", seed)
+    if op == "arch":
+        out = m.mutation([agent])[0]
+        return out, f"arch:{getattr(out, 'mut', None)}"
+    want = op.split(":", 1)[1]
+    orig = mut_mod.get_architecture_mut_method
+    chosen = {}
+
+    def targeted(ev, new_layer_prob, rng):
+        net = ev[0] if isinstance(ev, list) else ev
+        names = list(net.mutation_methods)
+        if want == "latent+":
+            cand = [n for n in names if n == "add_latent_node"]
+        elif want == "latent-":
+            cand = [n for n in names if n == "remove_latent_node"]
+        else:
+            pre = "encoder." if want == "encoder" else "head_net."
+            cand = [n for n in names if n.startswith(pre)]
+        if not cand:
+            return orig(ev, new_layer_prob, rng)
+        chosen["name"] = cand[int(rng.integers(len(cand)))]
+        return chosen["name"]
+
+    mut_mod.get_architecture_mut_method = targeted
+    try:
+        out = m.mutation([agent])[0]
+    finally:
+        mut_mod.get_architecture_mut_method = orig
+    return out, f"arch[{chosen.get('name', 'sampled')}]:{getattr(out, 'mut', None)}"
+
+
+def history_one(cfg):
+    """build a fresh agent, walk it through the chain, then ask for actions: (problems, tags, log)"""
+    agent = hist_agent(cfg)
+    log, problems = [], []
+    tags = [f"hist-{cfg['algo']}", f"kind-{cfg['kind']}"] + (["squash"] if cfg.get("squash") else [])
+    for k, op in enumerate(cfg["chain"]):
+        try:
+            seed_all(cfg["seed"] + k)
+            agent, what = apply_op(agent, op, cfg["seed"] + k)
+        except InfraError:
+            raise
+        except Exception as e:
+            # a history step that raises is another property's business (C01 / C03 / C07); C14 needs an agent to ask
+            return [], tags + ["history-step-raised"], log + [f"{op} raised {type(e).__name__}: {str(e)[:120]}"]
+        log.append(what)
+        tags.append("op-" + op.split(":")[0] + (":" + op.split(":")[1] if ":" in op else ""))
+    r = random.Random(cfg["seed"])
+    for j in range(cfg.get("asks", 4)):
+        # stochastic policies on a Box: a large batch, so that a sample outside the bounds shows with near certainty
+        big = cfg["algo"] in ("PPO", "IPPO") and cfg["kind"] == "box"
+        sub = dict(cfg, suite="sweep", seed=r.randrange(1 << 30), B=32 if big else r.randint(2, 4), single=(j % 2 == 1 and not (big and j == 1)),
+                   training=(j % 4 >= 2), mask=(r.random() < 0.7), eps=[0.0, 0.0, 0.5, 1.0][j % 4], greedy=True,
+                   env_defined=False, order=None, obs_order=None)
+        try:
+            p, t = sweep_one(sub, agent=agent)
+        except InfraError:
+            raise
+        except Exception as e:
+            p, t = [f"{cfg['algo']} {cfg['kind']} after {log}: get_action raised {type(e).__name__}: {str(e)[:200]}"], []
+        problems += [f"after history {log}: {x}" for x in p]
+        tags += [x for x in t if x.startswith(("eps-", "noise-", "masks-"))]
+    return problems, tags, log
+
+
+def gen_history(rng: random.Random, tier: str):
+    ag = _agents()
+    cfgs = []
+    chains_per_cfg = 3 if tier == "quick" else 10
+    for algo in ag.ALGOS:
+        for kind in ag.ACTION_KINDS[algo]:
+            variants = [False, True] if (algo == "PPO" and kind == "box") else [False]
+            for squash in variants:
+                fam = "vector" if tier == "quick" or rng.random() < 0.6 else rng.choice(["image", "dict", "discrete"])
+                for c in range(chains_per_cfg):
+                    if c == 0:          # every configuration is asked right after a network-level latent mutation
+                        chain = ["clone", rng.choice(["arch:latent+", "arch:latent-"])]      # (a later clone would rebuild the nets)
+                    elif c == 1:        # ... sees an encoder / head mutation and a checkpoint round trip, either order
+                        chain = [rng.choice(["arch:encoder", "arch:head"]), "ckpt"]
+                        rng.shuffle(chain)
+                    elif c % 2 == 0:    # ... and a random chain that ends in an architecture mutation
+                        chain = [rng.choice(HIST_OPS) for _ in range(rng.randint(0, 3))] + \
+                                [rng.choice(["arch", "arch:latent+", "arch:latent-", "arch:encoder", "arch:head"])]
+                    else:
+                        chain = [rng.choice(HIST_OPS) for _ in range(rng.randint(1, 4))]
+                    cfgs.append({"suite": "history", "algo": algo, "kind": kind, "family": fam, "squash": squash,
+                                 "space_seed": rng.randrange(3), "chain": chain, "seed": rng.randrange(1 << 30),
+                                 "asks": 4 if tier == "quick" else 6})
+    return cfgs
+
+
+def run_history(chk: Check, cfgs, sink=None) -> int:
+    flagged = raised = 0
+    for cfg in cfgs:
+        problems, tags, log = history_one(cfg)
+        raised += "history-step-raised" in tags
+        if sink is None:
+            chk.case({k: v for k, v in cfg.items()}, nontrivial=True, tags=sorted(set(tags)) + ["suite-history"],
+                     sample={"suite": "history", "algo": cfg["algo"], "kind": cfg["kind"], "chain": cfg["chain"], "log": log})
+        if "history-step-raised" in tags and sink is None:
+            chk.notes.append(f"history: {cfg['algo']}/{cfg['kind']} chain {cfg['chain']}: {log[-1]} (not judged by C14)")
+        if problems:
+            flagged += 1
+            if sink is None:
+                fid = finding_id(cfg, problems[0])
+                if fid is not None:
+                    if first_of_its_kind(chk, cfg, fid):
+                        chk.finding(fid, FINDINGS[fid] + " :: " + problems[0], {"case": cfg, "log": log, "oracle_problems": problems[:10]})
+                elif first_of_its_kind(chk, cfg, re.sub(r"after history \[.*?\]: ", "", problems[0])):
+                    chk.violation(problems[0], {"case": cfg, "log": log, "oracle_problems": problems[:10]})
+            else:
+                sink.append((cfg, None, problems))
+    if sink is None:
+        chk.suite("history", len(cfgs), flagged)
+        if cfgs and raised > len(cfgs) // 2:
+            raise InfraError(f"C14 history suite: {raised} of {len(cfgs)} chains raised inside a history step")
+    return flagged
 
 
 def gen_sweep(rng: random.Random, tier: str):
@@ -1743,7 +1933,7 @@ def run(chk: Check) -> None:
         c = json.loads(f.read_text())
         corpus.append(c.get("replay", c).get("case", c.get("replay", c)))
     sweep_corpus = [c for c in corpus if c.get("suite") == "sweep"]
-    run_cases(chk, "corpus", [c for c in corpus if c.get("suite") != "sweep"])
+    run_cases(chk, "corpus", [c for c in corpus if c.get("suite") not in ("sweep", "history")])
     if sweep_corpus:
         run_sweep(chk, sweep_corpus)
     # 2. generated suites
@@ -1754,6 +1944,8 @@ def run(chk: Check) -> None:
     run_cases(chk, "policy-gradient", gen_pg(rng, chk.tier))
     # 3. property oracle on the real networks
     run_sweep(chk, gen_sweep(rng, chk.tier))
+    # 4. the same oracle along histories: after clone / mutations of every kind / checkpoint round trips
+    run_history(chk, [c for c in corpus if c.get("suite") == "history"] + gen_history(rng, chk.tier))
     repeats = {k: n for k, n in _SEEN.items() if n > 1}
     if repeats:
         chk.notes.append("failures reported once per (suite, algorithm, kind): " +
@@ -1859,6 +2051,14 @@ def replay(chk: Check, path: str) -> int:
     c = c.get("replay", c)
     case = c.get("case", c)
     torch.set_num_threads(1)
+    if case.get("suite") == "history":
+        problems, _, log = history_one(case)
+        print(json.dumps({"case": case, "log": log, "oracle_problems": problems[:10]}, indent=1, default=str))
+        if problems:
+            print(f"VIOLATION property=C14 replay={path}")
+            print(f"  -> {problems[0]}"[:600])
+            return 1
+        return 0
     if case.get("suite") == "sweep":
         try:
             problems, _ = sweep_one(case)
